@@ -2,6 +2,7 @@ package config
 
 import (
 	"context"
+	"net/url"
 	"strings"
 
 	"github.com/indexsupply/shovel/eth"
@@ -61,6 +62,7 @@ type WireObs struct {
 	Cursor   []string // statements on shovel.task_updates
 	Steps    int      // Converge calls that returned nil
 	Params   []string // every statement parameter the database received, rendered
+	Exits    bool     // a source URL does not parse: jrpc2.MustURL ends the PROCESS in loadTasks (not run)
 }
 
 // RunFileWire: the file path as cmd/shovel/main.go runs it against a real
@@ -68,6 +70,18 @@ type WireObs struct {
 // Task.Converge per task against a scripted source, on a fresh wire-level
 // fake Postgres.  conf must have passed ValidateFix.
 func RunFileWire(conf shconfig.Root) (o WireObs) {
+	// loadTasks builds a jrpc2 client per source; jrpc2.MustURL prints "unable to parse url" and
+	// calls os.Exit(1) on a URL that url.Parse refuses.  That is the implementation's way of
+	// rejecting the configuration at startup (after the migration, before any task statement);
+	// the driver must not be taken down with it: such a configuration is not run on the wire.
+	for _, sc := range conf.Sources {
+		for _, u := range append(append([]string{}, sc.URLs...), sc.WSURL) {
+			if _, err := url.Parse(u); err != nil {
+				o.Exits = true
+				return
+			}
+		}
+	}
 	s, err := fakepg.Start()
 	if err != nil {
 		o.Err = "fakepg: " + err.Error()
